@@ -9,16 +9,11 @@ package meterpb
 //@ pure func mrOf(m) = cast(m, *traits.MeterReading)
 //@ pure func isMR(m) = istype(m, *traits.MeterReading) && cast(m, *traits.MeterReading) != nil
 //@
-//@ // NOT VERIFIED (noverify): both interceptors call Clock().Now() through the resource.Clock interface and timestamppb.New, which
-//@ // this verifier build lists as unmodelled calls and havocs the whole heap for; every postcondition below is then reported
-//@ // "sat" whatever the code does.  The contracts record the intended rule; the defect of NewModel (an initial reading loses its
-//@ // usage and start time, and the model starts without a start time) is demonstrated by the replay driver MeterInitialValue.
-//@
 //@ // the interceptor of the Set call in NewModel: o is the initial reading, n the (empty) request that replaces it
 //@ // entirely (no update mask), so what n holds afterwards is what the model starts with
 //@ func NewModel$1(o, n)
-//@   noverify
 //@   requires isMR(o) && isMR(n) && mrOf(o) != mrOf(n) && value != nil
+//@   requires mrOf(n).Usage == 0 && mrOf(n).StartTime == nil && mrOf(n).EndTime == nil   // the empty request, no mask
 //@   ensures [start] mrOf(n).StartTime != nil
 //@   ensures [end] mrOf(n).EndTime != nil
 //@   ensures [start-kept] old(mrOf(o).StartTime) != nil ==> mrOf(n).StartTime != nil && mrOf(n).StartTime.Seconds == old(mrOf(o).StartTime.Seconds) && mrOf(n).StartTime.Nanos == old(mrOf(o).StartTime.Nanos)
@@ -27,7 +22,6 @@ package meterpb
 //@
 //@ // RecordReading: the end time moves to now, nothing else of the request is touched
 //@ func (*Model).RecordReading$1(o, n)
-//@   noverify
 //@   requires isMR(n) && m != nil && m.meterReading != nil
 //@   ensures [end] mrOf(n).EndTime != nil && fresh(mrOf(n).EndTime)
 //@   ensures [usage] mrOf(n).Usage == old(mrOf(n).Usage) && mrOf(n).StartTime == old(mrOf(n).StartTime)
